@@ -67,6 +67,9 @@ type PTree struct {
 	Sane bool    `json:"sane"`  // harness' own cheap tree test (guards the computed calls below)
 	Idx  []PIdx  `json:"idx,omitempty"`
 	Rank []string `json:"rank,omitempty"` // sorted tip names (harness' own ranking)
+	// look-ups by name (logged with the index fields): names of the current tips that ExistsTip / TipNode / TipIndex
+	// answer correctly (found, the right node, the rank of the name)
+	Found []string `json:"found,omitempty"`
 	Enum *PEnum  `json:"enum,omitempty"`
 	Txt  *RTree  `json:"txt,omitempty"`
 	Sha  string  `json:"sha,omitempty"`
@@ -197,6 +200,20 @@ func project(t *tree.Tree, opt ProjOpt) (p *PTree) {
 				ix.H = int((h ^ (h >> 30) ^ (h >> 60)) & ((1 << 30) - 1))
 			}()
 			p.Idx = append(p.Idx, ix)
+		}
+		p.Found = []string{}
+		for _, n := range p.nodes {
+			if len(n.Neigh()) == 1 && n != t.Root() {
+				func() {
+					defer func() { recover() }()
+					ok, err := t.ExistsTip(n.Name())
+					tn, err2 := t.TipNode(n.Name())
+					ti, err3 := t.TipIndex(n.Name())
+					if err == nil && ok && err2 == nil && tn == n && err3 == nil && ti == rk[n.Name()]-1 {
+						p.Found = append(p.Found, n.Name())
+					}
+				}()
+			}
 		}
 	}
 	if p.Sane && opt.Enum {
